@@ -99,7 +99,8 @@ Inductive cop :=
 | CCreated (to : addr) (amt : Z) (tok : addr)
 | CDestroyed (from : addr) (amt : Z) (tok : addr)
 | CCanTransfer (from to : addr) (amt : Z) (tok : addr)
-| CCanCreate (to : addr) (amt : Z) (tok : addr).
+| CCanCreate (to : addr) (amt : Z) (tok : addr)
+| CAdvance (n : Z).                                (* the ledger advances by n; the contract stores nothing time-dependent *)
 
 (* [cc_auths]: the addresses whose authorisation is attached to the call, including the calling
    contract itself when the call is made by a contract; [cc_deny]: the modules that refuse *)
@@ -122,6 +123,7 @@ Definition cexec (cf : ccfg) (c : ccall) (s : cstate) : res (cret * cstate) :=
       let '(b, s') := ask_all (cc_deny c) (mods s HCanTransfer) (MCanTransfer f t a tok) s in Ok (Some b, s')
   | CCanCreate t a tok =>
       let '(b, s') := ask_all (cc_deny c) (mods s HCanCreate) (MCanCreate t a tok) s in Ok (Some b, s')
+  | CAdvance _ => Ok (None, s)
   end.
 
 Definition cstep (cf : ccfg) (s : cstate) (c : ccall) : cstate * res cret :=
